@@ -469,3 +469,9 @@ def load_dispatch(ctx, case):
         if joined:
             ctx.ensure("file-list:first-trajectory-keeps-its-topology", joined[0][0][0].topology == ("topology-of-file", 0))
     ctx.ensure("caller's-topology-object-left-unmodified(no-patched-subset)", "subset" not in getattr(top, "__dict__", {}))
+
+
+# strided reads, load_frame and iterload(skip) of DCD files skip frames with skip_dcdstep: contract shared with C18
+from . import c18 as _c18  # noqa: E402
+
+contract("C02", "mdtraj/formats/dcd/src/dcdplugin.c", "skip_dcdstep", lang="c", cases=_c18.FLAGS, replay="partial:dcd", covers=["skipped"])(_c18.skip_dcdstep)
